@@ -181,7 +181,7 @@ Definition https (fs : list flow) : list recording :=
   flat_map (fun f => match f with FHttp r => [r] | FOther => [] end) fs.
 
 Lemma https_map_FHttp l : https (map FHttp l) = l.
-Proof. induction l as [|r l IH]; simpl; [reflexivity|]. unfold https in IH. rewrite IH. reflexivity. Qed.
+Proof. unfold https. induction l as [|r l IH]; simpl; [reflexivity|]. rewrite IH. reflexivity. Qed.
 
 Lemma add_flows_pending o : forall fs m,
   Permutation (pending (add_flows o fs m)) (pending m ++ https fs).
@@ -418,8 +418,7 @@ Proof.
         rewrite map_app in Sl. apply ss_app_inv in Sl. destruct Sl as [_ [Sl _]].
         simpl in Sl. inversion Sl as [|? ? _ Fl]; subst. rewrite Forall_forall in Fl.
         apply N.lt_le_incl. apply Fl. apply in_map. exact Hin.
-    + exfalso. exact (unmatched_not_served o r E0) || idtac.
-      injection E as E _. exact (unmatched_not_served o r E).
+    + exfalso. injection E as E _. exact (unmatched_not_served o r E).
   - rewrite S in E. simpl in E. injection E as E _. exfalso. exact (unmatched_not_served o r E).
 Qed.
 
